@@ -17,6 +17,7 @@ fn main() {
     let mut scale = 1.0f64;
     let mut sub: Option<String> = None;
     let mut replay: Option<(String, u64)> = None;
+    let mut resume: Option<(String, u64)> = None;
     let mut verbose = false;
     let mut i = 2;
     while i < args.len() {
@@ -32,6 +33,7 @@ fn main() {
             "--scale" => { scale = val(i).parse().expect("scale"); i += 1 }
             "--sub" => { sub = Some(val(i)); i += 1 }
             "--replay" => { let s = val(i); let k = args.get(i + 2).expect("replay idx").parse().expect("idx"); replay = Some((s, k)); i += 2 }
+            "--resume-after" => { let s = val(i); let k = args.get(i + 2).expect("resume idx").parse().expect("idx"); resume = Some((s, k)); i += 2 }
             "-v" => verbose = true,
             _ => { eprintln!("unknown argument {}", a); std::process::exit(2) }
         }
@@ -41,6 +43,7 @@ fn main() {
     let mut ctx = Ctx::new(&prop, tier, seed, shard, nshards, scale, out.clone(), repo);
     ctx.only_sub = sub;
     ctx.replay = replay;
+    ctx.resume_after = resume;
     ctx.verbose = verbose;
     let known = jbv::mon::dispatch(&mut ctx);
     if !known {
